@@ -105,6 +105,19 @@ def encoding(ctx, crate, crs, tag):
                            loop is not None and elem_of_loop(b, loop, t["args"][2]) and
                            any(isinstance(e, dict) and e.get("n") == "solvable_id" for e in b.origin(t["args"][1]).get("proj", [])),
                            where_call(b, i), "the queued item is the loop element and the parent is this task's solvable")
+        # the consumer is total: every path to its return either excluded the solvable (Unknown dependencies) or went through
+        # all three queueing loops - no early return that leaves a solvable marked as encoded without its clauses
+        excl = [i for i, t in b.calls_to(ENC + "add_exclusion_clause")]
+        rets = b.return_blocks()
+        for callee in ("queue_package", "queue_requirement", "queue_constraint"):
+            hs = []
+            for i, t in b.calls_to(ENC + callee):
+                ok_, loop = unconditional_in_loop(b, crs, i)
+                if loop:
+                    hs.append(loop[0])
+            free = b.reachable(0, avoid=hs + excl)
+            ctx.ob(R, b.key, "%s:on-every-path" % callee, bool(hs) and not any(r in free for r in rets), b.loc(),
+                   "every path through the dependencies consumer reaches the %s loop (or the Unknown-dependencies exclusion)" % callee)
     # ---- candidates consumer
     b = body_by_key(crate, ENC + "on_candidates_available")
     if b is None:
